@@ -189,13 +189,13 @@ def run(rep, tier, rng):
     for k, entry in enumerate(("attr", "derive")):
         head = "#[::derive_ex::derive_ex(Hash)]" if entry == "attr" else "#[derive(::derive_ex::Ex)] #[derive_ex(Hash)]"
         body = ("{ #[hash(key = { let r: &$lt str = $d; r.len() })] a: &$lt str, #[hash(key = $p { v: $d }.v)] b: u8, #[hash(key = { $s; $d * $k })] c: u8, "
-                "#[hash(key = $d + $l)] d: u8, #[hash(key = $d * $b)] e: u8 }")
+                "#[hash(key = $d + $l)] d: u8, #[hash(key = $d * $b)] e: u8, #[hash(key = $d.max($n.abs()))] f: i32, #[hash(key = $d >> $o)] g: u32, #[hash(key = $o << 4 | $d)] h: u32 }")
         code = ("pub struct W { pub v: u8 }\n"
-                f"macro_rules! mk {{ ($d:tt, $lt:lifetime, $p:path, $s:stmt, $k:ident, $l:literal, $b:block) => {{ {head} pub struct Ty<$lt> {body} }} }}\n"
-                "mk!($, 'a, W, let k = 3u8, k, 4, { 1 + 1 });\n"
-                'pub fn run() { let x = Ty { a: "ab", b: 7, c: 2, d: 1, e: 3 }; let mut want = ::std::vec::Vec::new(); '
+                f"macro_rules! mk {{ ($d:tt, $lt:lifetime, $p:path, $s:stmt, $k:ident, $l:literal, $b:block, $n:expr, $o:expr) => {{ {head} pub struct Ty<$lt> {body} }} }}\n"
+                "mk!($, 'a, W, let k = 3u8, k, 4, { 1 + 1 }, -3i32, 4 & 3);\n"
+                'pub fn run() { let x = Ty { a: "ab", b: 7, c: 2, d: 1, e: 3, f: -5, g: 64, h: 1 }; let mut want = ::std::vec::Vec::new(); '
                 'want.push(::dxrt::RecHasher::of(&2usize)); want.push(::dxrt::RecHasher::of(&7u8)); want.push(::dxrt::RecHasher::of(&6u8)); '
-                'want.push(::dxrt::RecHasher::of(&5u8)); want.push(::dxrt::RecHasher::of(&6u8)); '
+                'want.push(::dxrt::RecHasher::of(&5u8)); want.push(::dxrt::RecHasher::of(&6u8)); want.push(::dxrt::RecHasher::of(&3i32)); want.push(::dxrt::RecHasher::of(&64u32)); want.push(::dxrt::RecHasher::of(&1u32)); '
                 '::dxrt::ev!("frag", "got" => ::dxrt::RecHasher::of(&x), "want" => want.join(";")); }')
         fcases.append(C.Case(f"f{4 + k}", code, {"what": f"struct {entry} (lifetime/path/stmt/literal/block fragments)"}))
     _, fnotes = C.run_cases(fcases, "c06f", header=HEADER, batch_size=4)
